@@ -258,7 +258,8 @@ def run(tier, seed):
                    "sequential-consistency abstraction of sync.RWMutex / atomic.Uint64 (guarded by a -race run of the concurrent histories when cgo is available)",
                    "harness/c10 (Go: logical clocks, yield-point scheduler through wasm.VerifYieldHook and a yielding context) and checks/c10.py (conversion, oracle)"]
     ck.assumptions += ["modules without imports and without start functions; interpreter engine in the harness",
-                       "linearizability theorem is bounded (C10_linearizable_partial_bounded_3ops) and restricted to close-atomic schedules: F10 is open",
+                       "linearizability theorem is bounded (C10_linearizable_partial_bounded_3ops: 302 programs, <=3 operations, one name) and restricted to close-atomic, panic-free schedules: F10 and the nil-type-id-map panic are open findings",
+                       "open findings replayed on the real code on every run: F10 close window, notifier attached after registration, compile panicking during Runtime.Close; the runtime-close window is only observed in random runs",
                        "Store.CloseWithExitCode's loop is one atomic step of the model (runs under the store lock; foreign CAS commutes)"]
     proofs_ok = ck.proofs()
     quick = tier == "quick"
@@ -269,10 +270,18 @@ def run(tier, seed):
     if not binp:
         ck.violation("harness-build", {"kind": "build"}, {"log": log[-3000:]}, no_input=True)
         return ck.finish()
-    rc, out = sh([binp, "-seed", str(seed), "-mode", "all", "-nseq", str(nseq), "-nconc", str(nconc), "-nprog", str(nprog), "-limit", str(limit)], timeout=3000)
-    cases = [json.loads(ln) for ln in out.split("\n") if ln.startswith("{")]
-    if rc != 0 or not cases:
-        ck.violation("harness-crash", {"kind": "crash"}, {"rc": rc, "tail": out[-3000:]}, no_input=False)
+    cases = []
+    for mode in ("seq", "forced", "conc"):
+        rc, out = sh([binp, "-seed", str(seed), "-mode", mode, "-nseq", str(nseq), "-nconc", str(nconc), "-nprog", str(nprog), "-limit", str(limit)], timeout=3000)
+        got = [json.loads(ln) for ln in out.split("\n") if ln.startswith("{")]
+        cases += got
+        if rc != 0:
+            if "concurrent map" in out and "interpreter.(*engine)" in out:
+                # Go's fatal error for the unlocked map in the interpreter engine's Close: the process cannot survive it
+                ck.violation("data-race", ENGCLOSE_SIG, {"mode": mode, "fatal": out[out.find("fatal error"):][:2500]})
+            else:
+                ck.violation("harness-crash", {"kind": "crash", "mode": mode}, {"rc": rc, "tail": out[-3000:]}, no_input=False)
+    if not cases:
         return ck.finish()
     # the concurrent histories once more under the race detector (needs cgo)
     race_note = "not run"
@@ -353,6 +362,10 @@ def run(tier, seed):
     # ---------------- timed histories (concurrent and forced): classification by the model inside Coq, oracle in Python
     hists = []
     n_panic_hist = 0
+    for c in forced:
+        # a close of a handle the thread never obtained does nothing on the real runtime: not part of the history
+        c["events"] = [e for e in c["events"] if e["ret"] != ["skip"]]
+        c["rets"] = [[r for r in t if r != ["skip"]] for t in (c.get("rets") or [])]
     for c in concs + forced:
         if c.get("deadlock"):
             fresh("forced-deadlock", {"kind": "forced-deadlock", "label": c.get("label")}, {"case": c})
